@@ -316,8 +316,8 @@ type SStack stackage.Stack       // alias with its own String
 type ACond stackage.Condition    // alias, no methods
 type SCond stackage.Condition    // alias with its own String
 
-func (r SStack) String() string { return stackage.Stack(r).String() }
-func (r SCond) String() string  { return stackage.Condition(r).String() }
+func (r SStack) String() string { return "<<SStack.String>>" } // must never show up: aliases are converted first
+func (r SCond) String() string  { return "<<SCond.String>>" }
 
 // Strg is a non-primitive value with a String method
 type Strg struct {
